@@ -197,3 +197,99 @@ class Dyn_integer_joint_arrays_probe(Dyn):
         (tau_i, M_i), (tau_f, M_f) = out
         g.eq('InverseDynamics(integer-typed q) = InverseDynamics(float q)', tau_i, tau_f)
         g.eq('MassMatrix(integer-typed q) = MassMatrix(float q)', M_i, M_f)
+
+
+# -- Arm-level wrappers ---------------------------------------------------------------------------------
+ARM = 'basic_robotics.kinematics.arm_model'
+TMM = 'basic_robotics.general.faser_transform'
+
+
+class _ArmDyn(Dyn):
+    """the Arm-level dynamics entry points on an arm given explicit spatial inertias through the public setters equal the
+    kernel functions applied to the arm's own link frames, inertias and screws -- so the kernel-level identities (Dyn_*)
+    hold for the arm: inverseDynamicsEMR and the library's own Newton-Euler recursion (inverseDynamics) both equal
+    InverseDynamics, massMatrix (sum of J_i^T G_i J_i over the link Jacobians) equals MassMatrix, forwardDynamics equals
+    ForwardDynamics for the gravity vector actually passed (including the zero vector), and after the inertias are
+    re-assigned through the setter the mass matrix is that of the new inertias"""
+    target = ARM + ':Arm.inverseDynamics'
+    under_contract = (ARM + ':Arm.inverseDynamicsEMR', ARM + ':Arm.massMatrix', ARM + ':Arm.forwardDynamics',
+                      ARM + ':Arm.jacobianLink', ARM + ':Arm.setMassProperties', MR + ':InverseDynamics',
+                      MR + ':MassMatrix', MR + ':ForwardDynamics')
+    n = 2
+    shape_bound = _DecompFixed.shape_bound + '; arm at the identity base'
+    timeout = 60.0
+    max_paths = 200
+
+    def prepare(self):
+        from pyvc import stubs
+        stubs.install()
+
+    def run(self, g, fn, args, kwargs):
+        from pyvc import stubs
+        th, dth, ddth, grav, F, Ml, Gl, Sl = _fixed_geom_args(g, 2)
+        if g.symbolic:
+            gh = stubs.ghost_of(g.ctx)
+            gh.body_exp = True
+            gh.body_log = False
+        mr = g.module(MR)
+        tm = g.module(TMM).tm
+        mk = (lambda x: npx.array(x, dtype=float)) if g.symbolic else (lambda x: _np.array(x, dtype=float))
+        cp = lambda x: x.copy() if isinstance(x, _np.ndarray) else [y.copy() for y in x]
+        home = tm(mk([[1, 0, 0, 1.75], [0, 1, 0, 0.25], [0, 0, 1, 0.75], [0, 0, 0, 1]]))
+        jp = mk([[0, 1.25], [0, 0], [0, 0.75]])
+        arm = g.module(ARM).Arm(tm(), cp(Sl), home, jp)
+        T1 = mk([[1, 0, 0, 0.5], [0, 1, 0, 0.0], [0, 0, 1, 0.25], [0, 0, 0, 1]])
+        T2 = mk([[1, 0, 0, 1.25], [0, 1, 0, 0.0], [0, 0, 1, 0.75], [0, 0, 0, 1]])
+        arm.setOrigins(link_homes_global=[tm(T1), tm(T2)])
+        Garr = mk([_np.array(x, dtype=object).tolist() if g.symbolic else x.tolist() for x in Gl]) if False else None
+        if g.symbolic:
+            Garr = npx.array([[[Gl[k][i, j] for j in range(6)] for i in range(6)] for k in range(2)], dtype=float)
+        else:
+            Garr = _np.array([_np.array(x, dtype=float) for x in Gl])
+        arm.setMassProperties(mk([2.0, 1.5]), [tm(cp(m)) for m in Ml], Garr.copy())
+        Marr = npx.array([[[Ml[k][i, j] for j in range(4)] for i in range(4)] for k in range(3)], dtype=float) if g.symbolic \
+            else _np.array([_np.array(x, dtype=float) for x in Ml])
+        out = {}
+        Fc = F.reshape((6,)) if F.ndim > 1 else F
+        out['ker_id'] = mr.InverseDynamics(cp(th), cp(dth), cp(ddth), cp(grav), cp(Fc), Marr.copy(), Garr.copy(), cp(Sl))
+        out['emr'] = arm.inverseDynamicsEMR(cp(th), cp(dth), cp(ddth), cp(grav), cp(Fc))
+        out['own'] = arm.inverseDynamics(cp(th), cp(dth), cp(ddth), cp(grav), cp(Fc).reshape((6, 1)))[0]
+        out['ker_M'] = mr.MassMatrix(cp(th), Marr.copy(), Garr.copy(), cp(Sl))
+        out['M'] = arm.massMatrix(cp(th))
+        tau = g.arr(g.reals('u', 2, scale=2.0))
+        out['ker_fd'] = mr.ForwardDynamics(cp(th), cp(dth), cp(tau), cp(grav), cp(Fc), Marr.copy(), Garr.copy(), cp(Sl))
+        out['fd'] = arm.forwardDynamics(cp(th), cp(dth), cp(tau), cp(grav), cp(Fc))
+        # the arm's default gravity is given components along every axis so that 'zero was replaced by the default' shows in
+        # the torques of this geometry (its second link's centre of gravity lies on the second joint axis)
+        arm.grav = mk([1.5, -2.0, -9.81])
+        zero = 0 * grav
+        out['ker_fd0'] = mr.ForwardDynamics(cp(th), cp(dth), cp(tau), zero.copy(), cp(Fc), Marr.copy(), Garr.copy(), cp(Sl))
+        out['fd0'] = arm.forwardDynamics(cp(th), cp(dth), cp(tau), zero.copy(), cp(Fc))
+        # history: the inertias are re-assigned through the public setter after a query at the same configuration
+        G2 = Garr.copy()
+        G2[0, 3, 3] = G2[0, 3, 3] + 1
+        G2[0, 4, 4] = G2[0, 4, 4] + 1
+        G2[0, 5, 5] = G2[0, 5, 5] + 1
+        G2[1, 0, 0] = G2[1, 0, 0] + 0.5
+        arm.setMassProperties(box_spatial_links=G2.copy())
+        out['ker_M2'] = mr.MassMatrix(cp(th), Marr.copy(), G2.copy(), cp(Sl))
+        out['M2'] = arm.massMatrix(cp(th))
+        return out
+
+    def post(self, g, out, args, kwargs):
+        def r(x):
+            x = npx.asarray(x) if g.symbolic else _np.asarray(x)
+            return x.reshape(-1)
+        ok = r(out['emr']).shape == r(out['ker_id']).shape
+        g.holds('inverseDynamicsEMR returns one torque per joint', ok)
+        if ok:
+            g.eq('inverseDynamicsEMR = InverseDynamics on the arm\'s link frames, inertias and screws', r(out['emr']), r(out['ker_id']))
+        g.eq('inverseDynamics (own Newton-Euler recursion) = InverseDynamics', r(out['own']), r(out['ker_id']))
+        g.eq('massMatrix (sum over links of J_i^T G_i J_i) = MassMatrix', out['M'], out['ker_M'])
+        g.eq('forwardDynamics = ForwardDynamics for the gravity vector passed', r(out['fd']), r(out['ker_fd']))
+        g.eq('forwardDynamics with an explicit zero gravity vector = ForwardDynamics without gravity', r(out['fd0']), r(out['ker_fd0']))
+        g.eq('after the inertias are re-assigned through setMassProperties: massMatrix = MassMatrix of the new inertias',
+             out['M2'], out['ker_M2'])
+
+
+register(type('Arm_dynamics_wrappers_2R_fixed', (_ArmDyn,), dict()))
